@@ -456,15 +456,16 @@ class TrimWhitespaces(FullAstVisitor):
 
     def visit_FunctionNode(self, node: mparser.FunctionNode) -> None:
         if node.func_name.value == 'files':
-            if self.config.sort_files:
-                self.sort_arguments(node.args)
-
             if len(node.args.arguments) == 1 and not node.args.kwargs:
                 arg = node.args.arguments[0]
                 if isinstance(arg, mparser.ArrayNode):
                     if not any(n.whitespaces and n.whitespaces.value.strip() for n in (arg.lbracket, arg.rbracket, arg, *node.args.commas)):
                         # files([...]) -> files(...)
                         node.args = arg.args
+
+            # sort the argument list that stays
+            if self.config.sort_files:
+                self.sort_arguments(node.args)
 
         super().visit_FunctionNode(node)
         self.move_whitespaces(node.rpar, node)
